@@ -282,6 +282,12 @@ def cases(shard, nshards, seed, tier):
     for argv in ([], ["--category", "atom_site"], ["--copy-from", "label_asym_id"], ["--replace", "auth_asym_id"], ["--values", "ABC", "--copy-to", "x"]):
         if mine():
             yield {"family": "cli-incomplete-mode", "argv": argv}
+    # the substitution alphabet left to its default (every printable non-blank character, 94 symbols): items with 30,
+    # 53, 60 and exactly 94 distinct values (large assemblies have that many chains)
+    for nd in (30, 53, 60, 94):
+        for how in ("default-category-and-item", "named-category-and-item"):
+            if mine():
+                yield {"family": "default-alphabet", "distinct": nd, "how": how}
     d = os.path.join(core.REPO, "tests")
     files = sorted(fn for fn in os.listdir(d) if fn.endswith(".cif") and os.path.getsize(os.path.join(d, fn)) > 0)
     if tier == "quick":
@@ -356,6 +362,28 @@ def _drive(rec, text, cat, op_kind, a, b, abstract=None):
 
 def run_case(case, rec):
     seed = os.environ.get("VERIF_SEED", "0")
+    if case["family"] == "default-alphabet":
+        from rnapolis import transformer
+
+        nd = case["distinct"]
+        chains = [f"C{i}" for i in range(nd)]
+        rows = []
+        for i, ch in enumerate(chains):
+            for a in ("P", "C1'"):
+                rows.append(["ATOM", str(len(rows) + 1), a, ch, chr(65 + i % 26), str(i + 1)])
+        # first appearance is not alphabetical: the second half of the chains comes first
+        rows = rows[nd:] + rows[:nd]
+        cats = [("entity", ["id", "type"], [["1", "polymer"]], "kv"), ("atom_site", ["group_PDB", "id", "label_atom_id", "auth_asym_id", "label_asym_id", "auth_seq_id"], rows, "loop")]
+        text = ciftok.emit("many", cats)
+        rec.mark_nontrivial(True)
+        try:
+            if case["how"] == "default-category-and-item":
+                transformer.replace_value(text)
+            else:
+                transformer.replace_value(text, "atom_site", "auth_asym_id")
+        except Exception:
+            pass  # judged by the monitor
+        return
     if case["family"] == "generated":
         rng = random.Random(f"{seed}:C20:g:{case['i']}")
         cats = make_doc(rng)
